@@ -1,32 +1,38 @@
 #!/bin/bash
-# confirm_seed.sh <ID> <seed dir> <install cmds> <demo cmd>
+# confirm_seed.sh <ID> <seed dir> <install cmds> <demo cmd> [patch file]
 #   Confirms in the scratch worktree /tmp/wt/confirm that a seeded change (1) applies and builds,
 #   (2) its demonstration passes without and fails with the change, (3) the pinned suite still passes.
 # <install cmds> is a shell snippet run with R=/tmp/wt/confirm and S=<seed dir>; <demo cmd> runs in $R.
 set -u
-ID="$1"; S="$2"; INSTALL="$3"; DEMO="$4"
+ID="$1"; S="$2"; INSTALL="$3"; DEMO="$4"; PATCH="${5:-$S/patch.diff}"
 R=/tmp/wt/confirm
 LOG=/tmp/confirm_$ID.log
 : > $LOG
 if [ ! -d $R ]; then git -C /repo worktree add --detach $R HEAD >>$LOG 2>&1; cp -a --reflink=auto /repo/target $R/target; fi
 cd $R
+clean() { git reset -q --hard; git clean -fdq -- crates; }
+clean
 git checkout -q --detach "$(git -C /repo rev-parse HEAD)" >>$LOG 2>&1
-git checkout -- . ; git clean -fdq -- crates
+clean
 export R S
 echo "== install demo" >>$LOG
 bash -c "$INSTALL" >>$LOG 2>&1
 echo "== demo WITHOUT patch" >>$LOG
-( cd $R && timeout 1200 bash -c "$DEMO" ) >>$LOG 2>&1; RC_WITHOUT=$?
+( cd $R && timeout 1200 bash -c "$DEMO" ) > /tmp/confirm_${ID}_without.out 2>&1; RC_WITHOUT=$?
+cat /tmp/confirm_${ID}_without.out >>$LOG
 echo "== apply patch" >>$LOG
-git apply "$S/patch.diff" >>$LOG 2>&1 || git apply --3way "$S/patch.diff" >>$LOG 2>&1; RC_APPLY=$?
+if git apply --check "$PATCH" 2>>$LOG; then git apply "$PATCH" >>$LOG 2>&1; RC_APPLY=0; else RC_APPLY=1; fi
 echo "== demo WITH patch" >>$LOG
-( cd $R && timeout 1200 bash -c "$DEMO" ) >>$LOG 2>&1; RC_WITH=$?
+( cd $R && timeout 1200 bash -c "$DEMO" ) > /tmp/confirm_${ID}_with.out 2>&1; RC_WITH=$?
+cat /tmp/confirm_${ID}_with.out >>$LOG
+BUILD_WITHOUT=ok; grep -q "could not compile" /tmp/confirm_${ID}_without.out && BUILD_WITHOUT=FAIL
+BUILD_WITH=ok; grep -q "could not compile" /tmp/confirm_${ID}_with.out && BUILD_WITH=FAIL
 echo "== suite with patch (demo removed)" >>$LOG
-git stash -q >>$LOG 2>&1; git clean -fdq -- crates; git stash pop -q >>$LOG 2>&1
-# keep only the production patch: re-create from scratch
-git checkout -- . ; git clean -fdq -- crates; git apply "$S/patch.diff" >>$LOG 2>&1 || git apply --3way "$S/patch.diff" >>$LOG 2>&1
+clean
+if [ $RC_APPLY = 0 ]; then git apply "$PATCH" >>$LOG 2>&1; fi
 /tmp/seedtools/baseline.sh $R > /tmp/confirm_${ID}_suite.out 2>&1; RC_SUITE=$?
 cat /tmp/confirm_${ID}_suite.out >>$LOG
-git checkout -- . ; git clean -fdq -- crates
+clean
 SUITE_LINE=$(grep -m1 "^passed=" /tmp/confirm_${ID}_suite.out)
-echo "CONFIRM $ID apply=$RC_APPLY demo_without_rc=$RC_WITHOUT demo_with_rc=$RC_WITH suite_rc=$RC_SUITE suite='$SUITE_LINE'" | tee -a $LOG > /tmp/confirm_$ID.result
+MISSING=$(grep MISSING /tmp/confirm_${ID}_suite.out | tr '\n' ' ')
+echo "CONFIRM $ID head=$(git -C /repo rev-parse --short HEAD) apply_clean=$RC_APPLY build_without=$BUILD_WITHOUT build_with=$BUILD_WITH demo_without_rc=$RC_WITHOUT demo_with_rc=$RC_WITH suite_rc=$RC_SUITE suite='$SUITE_LINE' missing='$MISSING'" | tee -a $LOG > /tmp/confirm_$ID.result
